@@ -241,6 +241,44 @@ func rawHTTPShort(method, base, target string, headers [][2]string, body []byte,
 	return &rawResp{Status: resp.StatusCode, Header: resp.Header, Body: rb}, nil
 }
 
+// rawHTTPChunkedWire writes the request itself over a TCP connection with Transfer-Encoding: chunked (also for
+// an EMPTY body, which net/http's client would turn into Content-Length: 0): the body goes out as one chunk
+// (if any) followed by the terminating chunk.
+func rawHTTPChunkedWire(method, base, target string, headers [][2]string, body []byte) (*rawResp, error) {
+	u, err := url.Parse(base)
+	if err != nil {
+		return nil, err
+	}
+	conn, err := net.DialTimeout("tcp", u.Host, 10*time.Second)
+	if err != nil {
+		return nil, err
+	}
+	defer conn.Close()
+	_ = conn.SetDeadline(time.Now().Add(30 * time.Second))
+	var b bytes.Buffer
+	fmt.Fprintf(&b, "%s %s HTTP/1.1\r\nHost: %s\r\nConnection: close\r\nTransfer-Encoding: chunked\r\n", method, target, u.Host)
+	for _, kv := range headers {
+		fmt.Fprintf(&b, "%s: %s\r\n", kv[0], kv[1])
+	}
+	b.WriteString("\r\n")
+	if len(body) > 0 {
+		fmt.Fprintf(&b, "%x\r\n", len(body))
+		b.Write(body)
+		b.WriteString("\r\n")
+	}
+	b.WriteString("0\r\n\r\n")
+	if _, err := conn.Write(b.Bytes()); err != nil {
+		return nil, err
+	}
+	resp, err := http.ReadResponse(bufio.NewReader(conn), nil)
+	if err != nil {
+		return nil, err
+	}
+	defer resp.Body.Close()
+	rb, _ := io.ReadAll(io.LimitReader(resp.Body, 16<<20))
+	return &rawResp{Status: resp.StatusCode, Header: resp.Header, Body: rb}, nil
+}
+
 func pathUnescape(p string) (string, error) { return url.PathUnescape(p) }
 
 // transportFailure decides what a failed raw request means: if the lab child reports that the
